@@ -2,7 +2,7 @@
 Model of `SQLGenerator.generate` on the single-model, non-window, non-routed path:
 _apply_default_time_dimensions → _parse_dimension_refs → _classify_filters_for_pushdown →
 _extract_metric_filter_columns → _build_model_cte → _build_main_select.
-A faithful transcription (including Python truthiness of `limit`/`offset`, the duplicate-name
+A faithful transcription (including Python truthiness of `offset`, the duplicate-name
 "collision" prefixing, `.replace("_cte", "")` on qualifiers); what is NOT modelled on this path:
 segments, parameters, relative-date rewriting (the harness never generates filters of that shape
 here), derived/ratio metrics (Layer/Metrics, C06) and joins (Layer/GenJoin, C02).
@@ -23,23 +23,27 @@ def colParts (c : String) : Option String × String :=
   | some (t, n) => (some t, n)
   | none => (none, c)
 
-/-- `_apply_default_time_dimensions` for one model -/
-def applyDefaultTimeDims (m : SModel) (metrics dims : List String) : List String :=
-  let hasTime := dims.any fun d =>
+def requestsMetricOf (m : SModel) (metrics : List String) : Bool :=
+  metrics.any fun r => match split2 r with | some (mn, _) => mn == m.name | none => false
+
+def requestsTimeDimOf (m : SModel) (dims : List String) : Bool :=
+  dims.any fun d =>
     match splitFirstDot d with
     | some (mn, part) =>
-      mn == m.name && (match m.dim? ((beforeFirstDunder part)) with
+      mn == m.name && (match m.dim? (beforeFirstDunder part) with
         | some dm => dm.type == "time"
         | none => false)
     | none => false
-  let metricOfModel := metrics.any fun r => match split2 r with
-    | some (mn, _) => mn == m.name
-    | none => false
+
+def defaultRef (m : SModel) (td : String) : String :=
+  m.name ++ "." ++ td ++ (match m.defaultGrain with | some g => "__" ++ g | none => "")
+
+/-- `_apply_default_time_dimensions` for one model -/
+def applyDefaultTimeDims (m : SModel) (metrics dims : List String) : List String :=
   match m.defaultTimeDim with
   | some td =>
-    if metricOfModel && !hasTime then
-      let ref := m.name ++ "." ++ td ++ (match m.defaultGrain with | some g => "__" ++ g | none => "")
-      if dims.contains ref then dims else dims ++ [ref]
+    if requestsMetricOf m metrics && !requestsTimeDimOf m dims then
+      if dims.contains (defaultRef m td) then dims else dims ++ [defaultRef m td]
     else dims
   | none => dims
 
@@ -241,6 +245,6 @@ def genSingle (m : SModel) (q : Query) : Except String Plan := do
     having := havingF.map (havingOf m),
     order := q.orderBy.map fun (field, desc) =>
       ((match splitFirstDot field with | some (_, rest) => rest | none => field), desc),
-    limit := truthyNat q.limit, offset := truthyNat q.offset }
+    limit := q.limit, offset := truthyNat q.offset }
 
 end SideVerif
